@@ -2,53 +2,56 @@
 // temporary experiments (agent-c05); will be removed
 use super::*;
 
-fn name_view(repr: &[u8]) -> &Name {
-    unsafe { &*(core::ptr::slice_from_raw_parts(repr.as_ptr(), repr.len() - 1) as *const Name) }
-}
-const R_A: [u8; 6] = [2, 0, 2, 1, b'a', 0];
-const R_BA: [u8; 9] = [3, 0, 2, 4, 1, b'b', 1, b'a', 0];
-
-// @harness name=c05x_heap_heap props=C05 tier=thorough mem=3 t=600 kani="--no-assertion-reach-checks" cbmc="--max-field-sensitivity-array-size 256"
+// @harness name=c05x_v1 props=C05 tier=thorough mem=3 t=600 kani="--no-assertion-reach-checks" cbmc="--max-field-sensitivity-array-size 256"
 #[kani::proof]
 #[kani::unwind(7)]
-fn c05x_heap_heap() {
-    let raw = [1u8, b'b', 1, b'a', 0];
-    let n = Name::try_from_uncompressed_all(&raw).unwrap();
-    let raw2 = [1u8, b'a', 0];
-    let m = Name::try_from_uncompressed_all(&raw2).unwrap();
-    assert!(n.eq_or_subdomain_of(&m), "[C05] x");
-    kani::cover!(true, "x");
-}
-
-// @harness name=c05x_view_view props=C05 tier=thorough mem=3 t=600 kani="--no-assertion-reach-checks" cbmc="--max-field-sensitivity-array-size 256"
-#[kani::proof]
-#[kani::unwind(7)]
-fn c05x_view_view() {
-    let a = name_view(&R_A);
-    let ba = name_view(&R_BA);
-    assert!(ba.eq_or_subdomain_of(a), "[C05] x");
-    kani::cover!(true, "x");
-}
-
-// @harness name=c05x_view_local props=C05 tier=thorough mem=3 t=600 kani="--no-assertion-reach-checks" cbmc="--max-field-sensitivity-array-size 256"
-#[kani::proof]
-#[kani::unwind(7)]
-fn c05x_view_local() {
-    let ra: [u8; 6] = [2, 0, 2, 1, b'a', 0];
-    let rba: [u8; 9] = [3, 0, 2, 4, 1, b'b', 1, b'a', 0];
-    let a = name_view(&ra);
-    let ba = name_view(&rba);
-    assert!(ba.eq_or_subdomain_of(a), "[C05] x");
-    kani::cover!(true, "x");
-}
-
-// @harness name=c05x_heap_eq props=C05 tier=thorough mem=3 t=600 kani="--no-assertion-reach-checks" cbmc="--max-field-sensitivity-array-size 256"
-#[kani::proof]
-#[kani::unwind(7)]
-fn c05x_heap_eq() {
+fn c05x_v1() {
     let raw = [1u8, b'a', 0];
     let n = Name::try_from_uncompressed_all(&raw).unwrap();
     let m = Name::try_from_uncompressed_all(&raw).unwrap();
-    assert!(*n == *m, "[C05] x");
+    assert!(n[0] == m[0], "[C05] x");
+    kani::cover!(true, "x");
+}
+
+// @harness name=c05x_v2 props=C05 tier=thorough mem=3 t=600 kani="--no-assertion-reach-checks" cbmc="--max-field-sensitivity-array-size 256"
+#[kani::proof]
+#[kani::unwind(7)]
+fn c05x_v2() {
+    let raw = [1u8, b'a', 0];
+    let n = Name::try_from_uncompressed_all(&raw).unwrap();
+    let m = Name::try_from_uncompressed_all(&raw).unwrap();
+    assert!(n[0].octets().eq_ignore_ascii_case(m[0].octets()), "[C05] x");
+    kani::cover!(true, "x");
+}
+
+// @harness name=c05x_v3 props=C05 tier=thorough mem=3 t=600 kani="--no-assertion-reach-checks" cbmc="--max-field-sensitivity-array-size 256"
+#[kani::proof]
+#[kani::unwind(7)]
+fn c05x_v3() {
+    let raw = [1u8, b'a', 0];
+    let n = Name::try_from_uncompressed_all(&raw).unwrap();
+    let m = Name::try_from_uncompressed_all(&raw).unwrap();
+    assert!(n.labels().zip(m.labels()).all(|(a, b)| a.octets().len() == b.octets().len()), "[C05] x");
+    kani::cover!(true, "x");
+}
+
+// @harness name=c05x_v4 props=C05 tier=thorough mem=3 t=600 kani="--no-assertion-reach-checks" cbmc="--max-field-sensitivity-array-size 256"
+#[kani::proof]
+#[kani::unwind(7)]
+fn c05x_v4() {
+    let x = [b'a'];
+    let y = [b'A'];
+    assert!(x[..].eq_ignore_ascii_case(&y[..]), "[C05] x");
+    kani::cover!(true, "x");
+}
+
+// @harness name=c05x_v5 props=C05 tier=thorough mem=3 t=600 kani="--no-assertion-reach-checks" cbmc="--max-field-sensitivity-array-size 256"
+#[kani::proof]
+#[kani::unwind(7)]
+fn c05x_v5() {
+    let raw = [1u8, b'a', 0];
+    let n = Name::try_from_uncompressed_all(&raw).unwrap();
+    let y = [b'A'];
+    assert!(n[0].octets().eq_ignore_ascii_case(&y[..]), "[C05] x");
     kani::cover!(true, "x");
 }
